@@ -57,10 +57,12 @@ def sequences(lname, tier):
     """Yield lists of (skeleton name, sizes tuple) — the trees checked in sequence."""
     ar = arity(lname)
     sk = list(SKEL)
-    lens = (2,) if tier == "quick" else (2, 3)
+    lens = (2, 3)
     for L in lens:
         for combo in itertools.product(sk, repeat=L):
             if L == 3 and len(set(combo)) > 2:
+                continue
+            if L == 3 and tier == "quick" and (len(set(combo)) > 1 or combo[0] == "(x,[y,z])"):
                 continue
             if tier == "quick" and combo[0] != combo[1] and "x" not in combo:
                 continue
